@@ -98,7 +98,7 @@ def family_free(f, docs=1, width=3, depth=2, pool=2):
 # ---------------------------------------------------------------------------------------------- trees with symbolic names for C14 / C04
 def family_names(f, shape='chain', names=('a', 'b'), anames=None, docs=1):
     """skeletons whose *names* are the subject: every element name symbolic over `names`.
-       shape 'two_parents': r > (N1 > N3, N2 > N4), N5 ; 'deep': r > N1 > N2 > N3 and r > N4 ; 'wide': r > N1, N2, N3 (each with one optional attribute)"""
+       shape 'three_branches': r > (N1 > N4), (N2 > (N5, N3 > N6)) ; 'two_parents': r > (N1 > N3, N2 > N4), N5 ; 'deep': r > N1 > N2 > N3 and r > N4 ; 'wide': r > N1, N2, N3 (each with one optional attribute)"""
     out = []
     for d in range(docs):
         t = 'd%d_' % d
@@ -118,6 +118,8 @@ def family_names(f, shape='chain', names=('a', 'b'), anames=None, docs=1):
             root.content = [el('n1', [el('n2', [el('n3')])])]
         elif shape == 'attrs':
             root.content = [el('n1', [el('n2')], attrs=2, text=True)]
+        elif shape == 'three_branches':
+            root.content = [el('n1', [el('n4')]), el('n2', [el('n5'), el('n3', [el('n6')])])]
         elif shape == 'pair':
             root.content = [el('n1', attrs=1), el('n2', text=True)]
         out.append([root])
@@ -365,3 +367,201 @@ class ExtendUnion(ParseHarness):
             if not am.truth(schema_eq(trees[-1], t2[-1])): failed.append('schema differs for supply %s: %r' % (kind, seq))
             if len(failed) > 4: break
         return bool(failed), {'docs': docs, 'failed': failed[:5]}
+
+# ---------------------------------------------------------------------------------------------- inductive step (DESIGN §3.4)
+class InductiveStep(Harness):
+    """One more occurrence of an element p, from an ARBITRARY pre-state of p's schema node (k children and j attributes with arbitrary
+    Mandatory/Optional tags, standalone flags and 32-bit counters, arbitrary text flag, arbitrary order of the private children vector),
+    through the real build_struct / count_children / parse_tag / tag_optional_children. The post-state must be the pre-state updated by
+    exactly this occurrence. With the base case (first occurrence, covered by the skeleton harnesses) this gives, by induction on the number
+    of occurrences and documents, exactness at one level for histories of ANY length; the same code handles every level."""
+    name = 'inductive-step'
+    k = 2; j = 1; slots = 2; new = 1; gk = 0; attr_slots = None; with_text = True
+    char_ops_forbidden = True
+    def build(self):
+        self.consts_ = []
+        def B(n): c = z3.Bool(n); self.consts_.append(c); return c
+        def BV(n): c = z3.BitVec(n, 32); self.consts_.append(c); return c
+        k, j = self.k, self.j
+        self.cn = ['c%d' % i for i in range(k)]; self.an = ['a%d' % i for i in range(j)]
+        self.c_mand = [B('pre_c%d_mand' % i) for i in range(k)]; self.c_single = [B('pre_c%d_standalone' % i) for i in range(k)]; self.c_count = [BV('pre_c%d_count' % i) for i in range(k)]
+        self.g_mand = [[B('pre_c%d_g%d_mand' % (i, g)) for g in range(self.gk)] for i in range(k)]
+        self.a_mand = [B('pre_a%d_mand' % i) for i in range(j)]
+        self.p_count = BV('pre_p_count'); self.p_single = B('pre_p_standalone'); self.p_text = B('pre_p_text')
+        pool = self.cn + ['n%d' % i for i in range(self.new)]
+        apool = self.an + ['m0']
+        self.pre = []; self.doms = {}
+        def S(n, dom):
+            c = z3.String(n); self.consts_.append(c); self.pre.append(z3.Or(*[c == z3.StringVal(d) for d in dom])); self.doms[str(c)] = list(dom); return c
+        self.p_empty = B('occ_p_empty')
+        self.s_name = [S('occ_s%d_name' % s, pool) for s in range(self.slots)]; self.s_pres = [B('occ_s%d_present' % s) for s in range(self.slots)]
+        self.s_empty = [B('occ_s%d_empty' % s) for s in range(self.slots)]          # child written <c/> (else <c>..</c> with an optional grandchild g0)
+        self.s_g = [B('occ_s%d_has_g0' % s) for s in range(self.slots)] if self.gk else [False] * self.slots
+        self.t_pres = B('occ_text_present') if self.with_text else False; self.t_cdata = B('occ_text_cdata') if self.with_text else False
+        self.o_attr = [(S('occ_a%d_name' % a, apool), B('occ_a%d_present' % a)) for a in range(min(2, j + 1) if self.attr_slots is None else self.attr_slots)]
+        for a in range(len(self.o_attr)):
+            for b in range(a): self.pre.append(z3.Implies(z3.And(self.o_attr[a][1], self.o_attr[b][1]), self.o_attr[a][0] != self.o_attr[b][0]))
+        lim = z3.BitVecVal(0xFFFFFFFF - self.slots - 1, 32)
+        for c in self.c_count + [self.p_count]: self.pre.append(z3.ULT(c, lim))      # no counter overflow within the step (stated bound: < 2^32 - slots - 1 prior occurrences)
+        for s in range(self.slots): self.pre.append(z3.Implies(self.p_empty, z3.Not(self.s_pres[s])))
+        if self.with_text: self.pre.append(z3.Implies(self.p_empty, z3.Not(self.t_pres)))
+        for s in range(self.slots):
+            if self.gk: self.pre.append(z3.Implies(self.s_empty[s], z3.Not(self.s_g[s])))
+    def preconditions(self): return list(self.pre)
+    def domains(self): return dict(self.doms)
+    def consts(self): return list(self.consts_)
+    def element(self, name, text, standalone, count, attrs, children, position):
+        return RStruct('Element', {'name': RStr(name), 'text': Some(RStr(Frags([z3.String('old_text')]))) if text else NONE(), 'standalone': standalone, 'count': count,
+                                   'attributes': RVec(attrs), 'children': RVec(children), 'position': Some(position) if position is not None else NONE()})
+    def run(self, m):
+        import itertools
+        k = self.k
+        kids = []
+        for i in range(k):
+            gs = [REnum('Necessity', 'Mandatory' if m.branch(self.g_mand[i][g]) else 'Optional', [self.element('g%d' % g, False, True, 1, [], [], g)]) for g in range(self.gk)]
+            kids.append(REnum('Necessity', 'Mandatory' if m.branch(self.c_mand[i]) else 'Optional',
+                              [self.element(self.cn[i], False, m.branch(self.c_single[i]), self.c_count[i], [], gs, i)]))
+        perms = list(itertools.permutations(range(k)))
+        order = perms[m.choose(len(perms))] if k > 1 else tuple(range(k))
+        attrs = [REnum('Necessity', 'Mandatory' if m.branch(self.a_mand[i]) else 'Optional', [RStr(self.an[i])]) for i in range(self.j)]
+        P = self.element('p', m.branch(self.p_text), m.branch(self.p_single), self.p_count, attrs, [kids[i] for i in order], 0)
+        W = self.element('w', False, True, 1, [], [REnum('Necessity', 'Mandatory', [P])], None)
+        # the new occurrence of p as a reader script
+        al = [Attr(n, p) for n, p in self.o_attr]
+        pn = Node('p', present=True, empty=self.p_empty, attrs=al, label='occ')
+        for s in range(self.slots):
+            c = Node(self.s_name[s], present=self.s_pres[s], empty=self.s_empty[s], label='occ_s%d' % s)
+            if self.gk: c.content.append(Node('g0', present=self.s_g[s], empty=True, label='occ_s%d_g0' % s))
+            pn.content.append(c)
+            if s == 0: pn.content.append(Text(present=self.t_pres, cdata=self.t_cdata, content=z3.String('occ_text'), label='occ_t'))
+        if self.slots == 0: pn.content.append(Text(present=self.t_pres, cdata=self.t_cdata, content=z3.String('occ_text'), label='occ_t'))
+        self.pn = pn
+        res = m.call_fn(m.fns['build_struct'], [X.reader(X.to_script(pn, True, [], 'S')), W])
+        return {'res': res, 'order': order}
+    def assertions(self, m, out):
+        res = out['res']
+        if res.variant != 'Ok': return [('build_struct succeeds on a well-formed occurrence', False)]
+        W = res.p[0]
+        if len(W.f['children'].l) != 1: return [('wrapper keeps exactly the one element p', False)]
+        pn = W.f['children'].l[0]; P = pn.p[0].f
+        conds = [('p stays Mandatory in its (single-occurrence) parent', pn.variant == 'Mandatory'),
+                 ('p.count incremented', P['count'] == self.p_count + 1), ('p.standalone unchanged by a single occurrence', P['standalone'] == m_truth(self.p_single, m)),
+                 ('p.text: Some iff it was Some or this occurrence has text/CDATA', IFF(P['text'].variant == 'Some', OR(self.p_text, self.t_pres)))]
+        def nocc(name): return [AND(self.s_pres[s], SEQ(self.s_name[s], name)) for s in range(self.slots)]
+        kids = P['children'].l
+        seen_names = []
+        for kd in kids:
+            nm = kd.p[0].f['name'].val; f = kd.p[0].f
+            lab = 'child %s' % (nm if isinstance(nm, str) else '?')
+            alts = []
+            for i, cn in enumerate(self.cn):
+                occ = nocc(cn)
+                cnt = self.c_count[i] + z3.Sum([z3.If(o, z3.BitVecVal(1, 32), z3.BitVecVal(0, 32)) for o in occ]) if any(o is not False for o in occ) else self.c_count[i]
+                alts.append(AND(SEQ(nm, cn), IFF(kd.variant == 'Mandatory', AND(self.c_mand[i], OR(*occ))), IFF(f['standalone'], AND(self.c_single[i], NOT(X.count_ge(occ, 2)))),
+                                f['count'] == cnt, f['position'].variant == 'Some' and f['position'].p[0] == i))
+            for ni in range(self.new):
+                nn = 'n%d' % ni; occ = nocc(nn)
+                cnt1 = z3.Sum([z3.If(o, z3.BitVecVal(1, 32), z3.BitVecVal(0, 32)) for o in occ])
+                alts.append(AND(SEQ(nm, nn), OR(*occ), kd.variant == 'Optional', IFF(f['standalone'], NOT(X.count_ge(occ, 2))),
+                                (f['count'] == cnt1) if not isinstance(f['count'], int) else (z3.BitVecVal(f['count'], 32) == cnt1),
+                                f['position'].variant == 'Some' and isinstance(f['position'].p[0], int) and f['position'].p[0] >= self.k))
+            conds.append((lab + ': is the pre-state child updated by this occurrence, or a new Optional child seen in it', OR(*alts)))
+            seen_names.append(nm)
+            # one level down: an old child written <c/> or <c></c> in this occurrence loses its mandatory grandchildren; <c><g0/></c> keeps g0's tag
+            if self.gk:
+                for i, cn in enumerate(self.cn):
+                    for g, gd in enumerate(f['children'].l):
+                        if g >= self.gk: continue
+                        occ_with_g = [AND(self.s_pres[s], SEQ(self.s_name[s], cn), self.s_g[s]) for s in range(self.slots)]
+                        occ_any = nocc(cn); occ_without = [AND(self.s_pres[s], SEQ(self.s_name[s], cn), NOT(self.s_g[s])) for s in range(self.slots)]
+                        conds.append(('%s/g%d: Mandatory iff it was Mandatory and every occurrence of its parent here contains it' % (lab, g),
+                                      z3.Implies(SEQ(nm, cn), IFF(gd.variant == 'Mandatory', AND(self.g_mand[i][g], NOT(OR(*occ_without))))) if not isinstance(SEQ(nm, cn), bool) else (IFF(gd.variant == 'Mandatory', AND(self.g_mand[i][g], NOT(OR(*occ_without)))) if SEQ(nm, cn) else True)))
+        for i in range(len(seen_names)):
+            for j2 in range(i): conds.append(('child names stay unique', NOT(SEQ(seen_names[i], seen_names[j2]))))
+        for i, cn in enumerate(self.cn): conds.append(('old child %s is kept' % cn, OR(*[SEQ(n, cn) for n in seen_names])))
+        for ni in range(self.new):
+            conds.append(('a new name seen in this occurrence gets a field', z3.Implies(OR(*nocc('n%d' % ni)), OR(*[SEQ(n, 'n%d' % ni) for n in seen_names])) if OR(*nocc('n%d' % ni)) is not False else True))
+        # attributes: merge_necessity of the old list with this occurrence's list
+        al = P['attributes'].l
+        def aocc(name): return OR(*[AND(p, SEQ(n, name)) for n, p in self.o_attr])
+        anames = []
+        for a in al:
+            nm = a.p[0].val; alts = []
+            for i, an in enumerate(self.an): alts.append(AND(SEQ(nm, an), IFF(a.variant == 'Mandatory', AND(self.a_mand[i], aocc(an)))))
+            alts.append(AND(SEQ(nm, 'm0'), aocc('m0'), a.variant == 'Optional'))
+            conds.append(('attribute: old one updated by this occurrence, or a new Optional one seen in it', OR(*alts))); anames.append(nm)
+        for i, an in enumerate(self.an): conds.append(('old attribute %s is kept' % an, OR(*[SEQ(n, an) for n in anames])))
+        conds.append(('a new attribute seen in this occurrence gets a field', IMPL(aocc('m0'), OR(*[SEQ(n, 'm0') for n in anames]))))
+        conds.append(('attribute names stay unique', len(anames) <= self.j + 1))
+        return conds
+    def witnesses(self, m, out):
+        if out['res'].variant != 'Ok': return {}
+        P = out['res'].p[0].f['children'].l[0].p[0].f
+        return {'an old Mandatory child is demoted': False, 'children vector permuted': out['order'] != tuple(range(self.k)), 'a new child is added': len(P['children'].l) > self.k}
+    def concretise(self, a): return {'pre_state_and_occurrence': a, 'a_history_reaching_it_plus_the_occurrence': self.history(a)[1]}
+    def result_summary(self, m, out, model): return None
+    def history(self, a):
+        """a concrete document <w><p>..</p>...</w> whose first occurrences of p reach the pre-state's flags, followed by the new occurrence"""
+        def occ(children, attrs, text): return {'children': children, 'attrs': attrs, 'text': text}
+        k, j = self.k, self.j
+        def kid(i, with_g): return (self.cn[i], ['g%d' % g for g in range(self.gk)] if with_g else [])
+        first = []
+        for i in range(k):
+            first.append(kid(i, True))
+            if not a['pre_c%d_standalone' % i]: first.append(kid(i, True))
+        occs = [occ(first, list(self.an), a['pre_p_text'])]
+        need2 = any(not a['pre_c%d_mand' % i] for i in range(k)) or any(not a['pre_a%d_mand' % i] for i in range(j)) or any(not a['pre_c%d_g%d_mand' % (i, g)] for i in range(k) for g in range(self.gk))
+        if need2:
+            second = []
+            for i in range(k):
+                if a['pre_c%d_mand' % i]: second.append((self.cn[i], ['g%d' % g for g in range(self.gk) if a['pre_c%d_g%d_mand' % (i, g)]]))
+            occs.append(occ(second, [self.an[i] for i in range(j) if a['pre_a%d_mand' % i]], False))
+        new = []
+        if not a['occ_p_empty']:
+            for s in range(self.slots):
+                if a['occ_s%d_present' % s]: new.append((a['occ_s%d_name' % s], ['g0'] if (self.gk and a.get('occ_s%d_has_g0' % s)) else []))
+        nattrs = [a['occ_a%d_name' % x] for x in range(len(self.o_attr)) if a['occ_a%d_present' % x]]
+        occs.append(occ(new, nattrs, bool(a.get('occ_text_present')) and not a['occ_p_empty']))
+        def ser(o):
+            s = '<p' + ''.join(' %s="v"' % x for x in o['attrs']) + '>'
+            for n, gs in o['children']: s += '<%s>%s</%s>' % (n, ''.join('<%s/>' % g for g in gs), n)
+            return s + ('t' if o['text'] else '') + '</p>'
+        return occs, '<w>' + ''.join(ser(o) for o in occs) + '</w>'
+    def native_violation(self, a, replay):
+        """the pre-state cannot be injected natively (private fields); instead a real document history that reaches the same flags is built,
+        extended by the new occurrence, and the native result is compared with an independent inference over these concrete occurrences.
+        (The symbolic counters and vector order of the pre-state are not reproduced: a counterexample that depends on them does not replay and is reported as inconclusive.)"""
+        occs, doc = self.history(a)
+        nat = replay.ask({'op': 'render', 'docs': [doc], 'options': []})
+        if 'trees' not in nat or not nat['trees']: return True, {'doc': doc, 'native': nat}
+        t = tree_from_debug(nat['trees'][-1])
+        p = [c for _, c in t['children'] if c['name'] == 'p'][0]
+        problems = []
+        names = []
+        for o in occs:
+            for n, _ in o['children']:
+                if n not in names: names.append(n)
+        got = {c['name']: (tag, c) for tag, c in p['children']}
+        if sorted(got) != sorted(names): problems.append('fields %r, expected %r' % (sorted(got), sorted(names)))
+        for n in names:
+            if n not in got: continue
+            tag, c = got[n]
+            cnts = [sum(1 for x, _ in o['children'] if x == n) for o in occs]
+            if (tag == 'Optional') != (min(cnts) == 0): problems.append('%s: %s but counts per occurrence %r' % (n, tag, cnts))
+            if (not c['standalone']) != (max(cnts) >= 2): problems.append('%s: standalone=%s but counts %r' % (n, c['standalone'], cnts))
+            gocc = [gs for o in occs for x, gs in o['children'] if x == n]
+            for gtag, gc in c['children']:
+                if (gtag == 'Optional') != any(gc['name'] not in gs for gs in gocc): problems.append('%s/%s: %s' % (n, gc['name'], gtag))
+        anames = []
+        for o in occs:
+            for x in o['attrs']:
+                if x not in anames: anames.append(x)
+        gota = {x: tag for tag, x in p['attributes']}
+        if sorted(gota) != sorted(anames): problems.append('attributes %r, expected %r' % (sorted(gota), sorted(anames)))
+        for x in anames:
+            if x in gota and (gota[x] == 'Optional') != any(x not in o['attrs'] for o in occs): problems.append('@%s: %s' % (x, gota[x]))
+        if (p['text'] is not None) != any(o['text'] for o in occs): problems.append('text flag')
+        return (True if problems else None), {'doc': doc, 'problems': problems, 'tree': nat['trees'][-1]}
+def m_truth(b, m):
+    v = z3.simplify(m.subst(b))
+    return z3.is_true(v)
